@@ -95,3 +95,42 @@ def check(prop, tier, extra_cov=None):
         rep.coverage.update(extra_cov)
     rep.assumptions = list(ASSUME)
     return rep
+
+
+def replay(prop, path):
+    """Re-run the recorded session of a replay file against the current tree and judge it again."""
+    import json
+    import os
+    import subprocess
+    doc = json.load(open(path, encoding="utf-8"))
+    sess = doc["replay"]["session"]
+    work = common.scratch("replay-")
+    try:
+        model = os.path.join(common.REPO, "generator", "lsp.json")
+        code = ("import json,sys\nfrom harness import codec_driver\nr=codec_driver.Runner()\n"
+                "s=r.rerun(json.load(open(sys.argv[1])))\n"
+                "json.dump({'norm':codec_driver.norm_table(sys.argv[3]),'sessions':[s]},open(sys.argv[2],'w'))\nprint(len(s['ev']))")
+        sp = os.path.join(work, "sess.json")
+        tp = os.path.join(work, "trace.json")
+        json.dump(sess, open(sp, "w"))
+        p = subprocess.run([common.PY, "-c", code, sp, tp, model], cwd=common.VERIF,
+                           env=codec_check.pkg_env(os.path.join(common.REPO, "packages", "python")), stdout=subprocess.PIPE, stderr=subprocess.PIPE)
+        if p.returncode != 0:
+            raise common.MachineryError(p.stderr.decode()[-2000:])
+        nev = int(p.stdout.decode().strip().splitlines()[-1])
+        rc, out = common.run_tlc("CodecTrace", codec_check.trace_cfg(1, nev), env={"LSP_MODEL": model, "CODEC_TRACE": tp})
+        if '"@DONE' not in out:
+            raise common.MachineryError(out[-2000:])
+        new = json.load(open(tp))["sessions"][0]
+        bad = 0
+        for f in common.tagged_lines(out, "@F"):
+            ff = {"session": new, "l": f["l"], "c": sorted(f["c"]), "pos": sorted(f["pos"]) if f["pos"] else []}
+            for clause in sorted(relevant(prop, ff)):
+                bad += 1
+                print("VIOLATION property=%s replay=%s  sig=%s" % (prop, path, json.dumps(signature(prop, clause, ff), sort_keys=True)))
+        if not bad:
+            print("replay of %s: the recorded session no longer violates %s" % (path, prop))
+        return 1 if bad else 0
+    finally:
+        import shutil
+        shutil.rmtree(work, ignore_errors=True)
